@@ -223,4 +223,58 @@ theorem Rng.onStream_uniformPositive (seed : UInt32) (fuel : Nat) : ∀ (r : Rng
     · rw [if_neg h0] at h
       cases h; exact ⟨k + 1, by omega, by omega, hs'⟩
 
+/-- `esl_rnd_UniformPositive` as a total function of the stream: zero outputs `k … k+i-1`, non-zero output `k+i` ⇒ the call returns
+    that output's numerator and leaves the generator `i+1` draws further, for every fuel `> i` -/
+theorem Rng.uniPos_first (seed : UInt32) (i : Nat) : ∀ (r : Rng) (k : Nat), r.OnStream seed k →
+    (∀ j, j < i → (temper32 (ref P32 seed (624 + k + j))).toNat = 0) → (temper32 (ref P32 seed (624 + k + i))).toNat ≠ 0 →
+    ∀ fuel, i < fuel →
+      r.uniformPositive fuel = some ((temper32 (ref P32 seed (624 + k + i))).toNat, (r.draws (i + 1)).2) := by
+  induction i with
+  | zero =>
+    intro r k ⟨hk, hinv⟩ _ hne fuel hf
+    obtain ⟨f, rfl⟩ : ∃ f, fuel = f + 1 := ⟨fuel - 1, by omega⟩
+    obtain ⟨h1, _⟩ := next_spec P32 seed r.st k hinv
+    have hn : r.next = ((MTP.next P32 r.st).1, { r with st := (MTP.next P32 r.st).2 }) := by simp [Rng.next, hk]
+    have hr : r.randomNum = ((r.next).1.toNat, (r.next).2) := rfl
+    have hx : (MTP.next P32 r.st).1.toNat ≠ 0 := by rw [h1]; exact hne
+    simp only [Rng.uniformPositive, hr, hn, hx, ↓reduceIte, Rng.draws]
+    rw [h1]
+    rfl
+  | succ i ih =>
+    intro r k hs hz hne fuel hf
+    obtain ⟨f, rfl⟩ : ∃ f, fuel = f + 1 := ⟨fuel - 1, by omega⟩
+    obtain ⟨h1, _⟩ := next_spec P32 seed r.st k hs.2
+    have hn : r.next = ((MTP.next P32 r.st).1, { r with st := (MTP.next P32 r.st).2 }) := by simp [Rng.next, hs.1]
+    have hr : r.randomNum = ((r.next).1.toNat, (r.next).2) := rfl
+    have hs' := Rng.onStream_next r seed k hs
+    rw [hn] at hs'
+    have h0 : (MTP.next P32 r.st).1.toNat = 0 := by rw [h1]; exact hz 0 (by omega)
+    have e : ∀ j, 624 + (k + 1) + j = 624 + k + (j + 1) := by intro j; omega
+    have := ih _ (k + 1) hs' (by intro j hj; rw [e]; exact hz (j + 1) (by omega)) (by rw [e]; exact hne) f (by omega)
+    simp only [Rng.uniformPositive, hr, hn, h0, ↓reduceIte]
+    rw [this, e]
+    conv_rhs => rw [Rng.draws]
+    simp only [hn]
+
+/-- every non-zero seed, every position: there is a FIRST non-zero output among the next 624 -/
+theorem first_nonzero32 (seed : UInt32) (hs : seed ≠ 0) (k : Nat) :
+    ∃ i, i < 624 ∧ (∀ j, j < i → (temper32 (ref P32 seed (624 + k + j))).toNat = 0) ∧
+      (temper32 (ref P32 seed (624 + k + i))).toNat ≠ 0 := by
+  have hex : ∃ i, (temper32 (ref P32 seed (624 + k + i))).toNat ≠ 0 := by
+    obtain ⟨i, _, hne⟩ := mt32_nonzero_word_within seed hs (623 + k)
+    refine ⟨i, fun h0 => hne ?_⟩
+    have e : 623 + k + 1 + i = 624 + k + i := by omega
+    rw [e]
+    exact temper32_eq_zero _ (by rw [← UInt32.toNat_inj]; exact h0)
+  have hlt : Nat.find hex < 624 := by
+    obtain ⟨i, hi, hne⟩ := mt32_nonzero_word_within seed hs (623 + k)
+    refine Nat.lt_of_le_of_lt (Nat.find_min' hex (fun h0 => hne ?_)) hi
+    have e : 623 + k + 1 + i = 624 + k + i := by omega
+    rw [e]
+    exact temper32_eq_zero _ (by rw [← UInt32.toNat_inj]; exact h0)
+  refine ⟨Nat.find hex, hlt, ?_, Nat.find_spec hex⟩
+  intro j hj
+  have := Nat.find_min hex hj
+  simpa using this
+
 end EaselModel.Random
